@@ -39,7 +39,7 @@ struct tcb { mptr prev; mptr next; stamp_t stamp; uint64_t xv_pad; };   /* xv_pa
 struct node { struct node* next_chunk; };
 struct toq { tcbp head; tcbp tail; struct node* global_retired_nodes; };
 #ifndef LMAX
-#define LMAX 3u          /* shape: at most LMAX blocks in the list */
+#define LMAX 3u          /* shape: at most LMAX (1..4) blocks in the list */
 #endif
 #define NB (3u + LMAX)  /* tail, head, LMAX list blocks, one block outside */
 #ifdef XV_INT
@@ -81,8 +81,8 @@ struct node npool[3];
 static struct node* nondet_node(void) { unsigned k = nondet_uint(); return k < 3 ? &npool[k] : (struct node*)0; }
 
 /* =========================================== monitors ===========================================
- * Every atomic access of the lowered text passes through these hooks.  They keep, per cell, the value this thread observed last (by load,
- * by its own write, or by the reload of a failed CAS) and assert the commit obligations at the access itself, so they hold on every path of every run. */
+ * Every atomic access of the lowered text passes through these hooks.  They keep what this thread observed last (by load, by its own write,
+ * or by the reload of a failed CAS) and assert the commit obligations at the access itself, so they are checked on every path of every run, SEQ and INT. */
 enum { F_NONE = 0, F_PREV, F_NEXT, F_STAMP };
 enum { OP_NONE = 0, OP_PUSH, OP_REMOVE, OP_CTOR, OP_OTHER };
 int mon_op; tcbp mon_own;                             /* the operation running and the block it was called for */
@@ -108,8 +108,8 @@ static _Bool obs_is(void* addr, uint64_t v) {
   if (h_a3 == addr) return h_v3 == v;
   return 0;
 }
-uint64_t m_own_stamp_ld;
-unsigned m_ls_ix, m_ls2_ix; uint64_t m_ls_val, m_ls2_val; size_t uts_guess;   /* the last two stamp loads (update_tail_stamp: last->stamp, then tail->stamp); the guess update_tail_stamp was called with */   /* last value loaded from the own block's stamp */
+uint64_t m_own_stamp_ld;                              /* last value loaded from the own block's stamp */
+unsigned m_ls_ix, m_ls2_ix; uint64_t m_ls_val, m_ls2_val; size_t uts_guess;   /* the last two stamp loads (update_tail_stamp: last->stamp, then tail->stamp); the guess update_tail_stamp was called with */
 /* head->stamp */
 unsigned m_hs_rmw_n; uint64_t m_hs_old, m_hs_clk;
 /* tail->stamp */
@@ -328,13 +328,13 @@ static uint64_t env_val(void* addr, uint64_t cur) {
 
 
 /* =========================================== quiescent queue =========================================== */
-unsigned in_mode, in_lmax, in_n, in_k; size_t in_s0, in_s1, in_s2, in_hs, in_ts, in_xs; uint64_t in_xp, in_xn;
-unsigned in_tp0, in_tp1, in_tp2, in_tn0, in_tn1, in_tn2, in_thp, in_ttn;        /* tags (marks without the delete bit) */
+unsigned in_mode, in_lmax, in_n, in_k; size_t in_s0, in_s1, in_s2, in_s3, in_hs, in_ts, in_xs; uint64_t in_xp, in_xn;
+unsigned in_tp0, in_tp1, in_tp2, in_tp3, in_tn0, in_tn1, in_tn2, in_tn3, in_thp, in_ttn;        /* tags (marks without the delete bit) */
 struct tcb snap[NBX];
 #define CLEAN_TAG(t) ((t) & MarkMask & ~DeleteMark)
-static size_t stamp_of(unsigned i) { return i == 0 ? in_s0 : i == 1 ? in_s1 : in_s2; }
-static unsigned ptag(unsigned i) { return i == 0 ? in_tp0 : i == 1 ? in_tp1 : in_tp2; }
-static unsigned ntag(unsigned i) { return i == 0 ? in_tn0 : i == 1 ? in_tn1 : in_tn2; }
+static size_t stamp_of(unsigned i) { return i == 0 ? in_s0 : i == 1 ? in_s1 : i == 2 ? in_s2 : in_s3; }
+static unsigned ptag(unsigned i) { return i == 0 ? in_tp0 : i == 1 ? in_tp1 : i == 2 ? in_tp2 : in_tp3; }
+static unsigned ntag(unsigned i) { return i == 0 ? in_tn0 : i == 1 ? in_tn1 : i == 2 ? in_tn2 : in_tn3; }
 /* quiescent queue: tail <-> B0 <-> ... <-> B(n-1) <-> head, links consistent in both directions, no delete marks, arbitrary tags;
  * stamps strictly increasing from tail to head, free of flags; head->stamp above all of them; tail->stamp not above any of them */
 static void build_quiescent(void) {
@@ -342,8 +342,8 @@ static void build_quiescent(void) {
 #ifdef XV_N
   XV_ASSUME(in_n == XV_N);
 #endif
-  in_s0 = nondet_size(); in_s1 = nondet_size(); in_s2 = nondet_size(); in_hs = nondet_size(); in_ts = nondet_size();
-  in_tp0 = nondet_uint(); in_tp1 = nondet_uint(); in_tp2 = nondet_uint(); in_tn0 = nondet_uint(); in_tn1 = nondet_uint(); in_tn2 = nondet_uint();
+  in_s0 = nondet_size(); in_s1 = nondet_size(); in_s2 = nondet_size(); in_s3 = nondet_size(); in_hs = nondet_size(); in_ts = nondet_size();
+  in_tp0 = nondet_uint(); in_tp1 = nondet_uint(); in_tp2 = nondet_uint(); in_tp3 = nondet_uint(); in_tn0 = nondet_uint(); in_tn1 = nondet_uint(); in_tn2 = nondet_uint(); in_tn3 = nondet_uint();
   in_thp = nondet_uint(); in_ttn = nondet_uint();
   XV_ASSUME(FLAGS(in_hs) == 0 && FLAGS(in_ts) == 0 && in_hs >= StampInc && in_hs <= SIZE_MAX - 4 * StampInc);
   size_t lowest = in_hs;
@@ -711,11 +711,11 @@ static void build_mid(void) {
     if (in_dst >= 4) B(o).next = MP_make(nw, MP_mark(B(o).next) + TagInc);
   }
 }
-/* the prev chain from head: strictly decreasing stamps, ends at tail, contains every block of `must` (bit i = list block i, bit 3 = X), nothing of `never` */
+/* the prev chain from head: strictly decreasing stamps, ends at tail, contains every block of `must` (bit i = list block i, bit LMAX = X), nothing of `never` */
 static _Bool prev_chain_ok(unsigned must, unsigned never) {
   tcbp cur = I_HEAD; size_t last = B(I_HEAD).stamp; unsigned seen = 0;
   for (unsigned step = 0; step < LMAX + 3; step++) {
-    if (cur != I_HEAD && cur != I_TAIL) { unsigned bit = cur == I_X ? 8u : (1u << (cur - I_B0)); if (never & bit) return 0; seen |= bit; }
+    if (cur != I_HEAD && cur != I_TAIL) { unsigned bit = 1u << (cur - I_B0);   /* bit LMAX = the pushed block X */ if (never & bit) return 0; seen |= bit; }
     if (cur == I_TAIL) return (seen & must) == must;
     tcbp p = MP_get(B(cur).prev);
     if (p < I_TAIL || p > I_X || p == I_HEAD) return 0;
@@ -758,7 +758,7 @@ void h_mid(void) {
     XV_OBL("stampq.push.fresh_stamp", B(I_X).stamp == in_hs && B(I_HEAD).stamp == in_hs + StampInc && m_hs_rmw_n == 1);
     XV_OBL("stampq.mid.push_links", MP_get(B(I_HEAD).prev) == I_X && !MARKED(B(I_HEAD).prev) && B(I_X).prev == MP_make(MP_get(snap[I_HEAD - 1].prev), MP_mark(B(I_X).prev)) && !MARKED(B(I_X).prev));
     XV_OBL("stampq.mid.push_links", MP_get(B(I_X).next) == I_HEAD && !MARKED(B(I_X).next) && (MP_get(B(newest).next) == I_X || MARKED(snap[newest - 1].next)));
-    XV_OBL("stampq.mid.push_links", prev_chain_ok((all & ~(in_dst >= 3 ? dbit : 0)) | 8u, in_dst >= 3 ? dbit : 0) && next_chain_reaches_head());
+    XV_OBL("stampq.mid.push_links", prev_chain_ok((all & ~(in_dst >= 3 ? dbit : 0)) | (1u << LMAX), in_dst >= 3 ? dbit : 0) && next_chain_reaches_head());
     check_push_post();
     for (unsigned i = 0; i < LMAX; i++) if (i < in_n) XV_OBL("stampq.mid.lower_bound", B(I_TAIL).stamp <= FINAL(B(I_B0 + i).stamp) && B(I_B0 + i).stamp < B(I_X).stamp && B(I_B0 + i).stamp == snap[I_B0 + i - 1].stamp);
     XV_OBL("stampq.mid.lower_bound", B(I_TAIL).stamp == in_ts);
